@@ -353,6 +353,8 @@ def base_catalogue():
         ("Kron(Dense2,Dense3)", b_kron(D2, D3), {"kron": (2, 3)}),
         ("Kron(Dense2x3,Dense2x2)", b_kron(b_dense(2, 3), D2), {}),
         ("Kron(Dense2,Dense2,Dense2)", b_kron(D2, D2, D2), {}),
+        ("Kron(Dense2,Dense2x3)", b_kron(D2, b_dense(2, 3)), {}),
+        ("Kron(Dense3x2,Dense2x3,Dense2)", b_kron(b_dense(3, 2), b_dense(2, 3), D2), {}),
         ("KronTriangular(lower)", b_krontri(False), {}),
         ("KronDiag(Diag2,Diag3)", b_kron(b_diag(2), b_diag(3), cls="KroneckerProductDiagLinearOperator"), {}),
         ("AddedDiag(Dense)", b_addeddiag(D3, 3), {}),
